@@ -151,8 +151,8 @@ def run(ctx):
                 "upper half empty. Non-trivial: non-zero profile.")
     coq = vp_coq.full_check("C07", ctx, fams=("dft",))
     sizes = dc.QUICK_SIZES if ctx.quick() else dc.THOROUGH_SIZES
-    pairs = dc.gen_csr_cases(ctx, 90 if ctx.quick() else 3000, sizes)
-    dis = run_pairs(ctx, pairs, 13 if ctx.quick() else 300)
+    pairs = dc.gen_csr_cases(ctx, 150 if ctx.quick() else 3000, sizes)
+    dis = run_pairs(ctx, pairs, 20 if ctx.quick() else 300)
     ctx.sample(pairs[0][0].describe())
     ctx.sample(pairs[0][1].describe())
     ctx.extra["correspondence_disagreements"] = len(dis)
